@@ -1039,6 +1039,7 @@ class mulgrid(object):
                     n3.column.remove(col)
                     col.centre = col.centroid
                     self.add_column(col2)
+                    self.set_column_num_layers(col2)
                     # connections moved to col2 are now keyed by its name:
                     self.connection = dict([(tuple([c.name for c in con.column]), con)
                                             for con in self.connectionlist])
